@@ -136,7 +136,10 @@ CLAIMED = {
              "into two with the same tags whose values add up, and renumbering system ids leave energy_performance "
              "unchanged (same error, or the same carrier balances and factors) for every component list; what "
              "normalisation gives a system (completion, auxiliary assignment) does not depend on the order in which the "
-             "hash set of ids is iterated, and the final order is fixed by a stable sort. Text level, over the reader model of "
+             "hash set of ids is iterated, and the final order is fixed by a stable sort; from the declared components: the "
+             "normalised list of a reordered list is a permutation of the normalised list, or the same error "
+             "(C10_normalize_reorder: per-system sums, any processing order of the systems), hence the same evaluation "
+             "(C10_reorder_declared). Text level, over the reader model of "
              "Model/Parse.v (tied to FromStr by the exact correspondence of C16): the reader sees the text only through its "
              "trimmed lines (C10_text_is_read_by_trimmed_lines), so white space around any line (C10_text_whitespace), "
              "blank / comment / header lines anywhere (C10_text_ignored_line), a byte order mark (C10_text_bom) and a CR "
